@@ -141,6 +141,8 @@ def to_history(events):
             h.append(dict(a=ev, p=e["p"], n=e["n"]))
         elif ev == "Anon":
             h.append(dict(a="Anon", p=e["p"]))
+        elif ev == "Preamble":
+            h.append(dict(a="Preamble", n=e["node"]["v"]))
         elif ev in ("Add", "Frag"):
             h.append(dict(a=ev, tree=e["tree"]))
         elif ev == "Render":
